@@ -80,8 +80,7 @@ Fixpoint options_decode_loop (fuel : nat) (option_number : Z) (rawdata : bytes) 
 Definition options_decode (rawdata : bytes) : M (list (Z * bytes) * bytes) :=
   options_decode_loop (S (List.length rawdata)) 0 rawdata.
 
-(* Options.encode, options.py:191-210 (over option_list(), which is the stored order for
-   options added in non-decreasing number order) *)
+(* Options.encode, options.py:191-210, applied to option_list() *)
 Fixpoint options_encode_from (current : Z) (os : list (Z * bytes)) : M bytes :=
   match os with
   | [] => Ok []
@@ -92,6 +91,17 @@ Fixpoint options_encode_from (current : Z) (os : list (Z * bytes)) : M bytes :=
     Ok ([Z.shiftl (Z.land delta 15) 4 + Z.land length 15] ++ extended_delta ++ extended_length ++ optiondata ++ rest)
   end.
 Definition options_encode (os : list (Z * bytes)) : M bytes := options_encode_from 0 os.
+
+(* Options.option_list, options.py:225-228: the per-number lists of the _options dict (insertion order
+   within a number), concatenated in order of increasing number = a stable sort of the insertion
+   sequence by option number. [opts m] of an outgoing message is the insertion sequence. *)
+Fixpoint insert_opt (o : Z * bytes) (l : list (Z * bytes)) : list (Z * bytes) :=
+  match l with
+  | [] => [o]
+  | x :: r => if fst o <? fst x then o :: l else x :: insert_opt o r
+  end.
+Definition option_list (os : list (Z * bytes)) : list (Z * bytes) :=
+  fold_left (fun acc o => insert_opt o acc) os [].
 
 (* tcp.py:50-62 _decode_message *)
 Definition decode_message (data : bytes) : M msg :=
@@ -109,7 +119,7 @@ Definition decode_message (data : bytes) : M msg :=
 
 (* tcp.py:76-89 _serialize *)
 Definition serialize (m : msg) : M bytes :=
-  od <- options_encode (opts m) ;;
+  od <- options_encode (option_list (opts m)) ;;
   let data := od ++ (match payload m with [] => [] | _ => 255 :: payload m end) in
   '(length, extlen) <- encode_length (blen data) ;;
   let tkl := blen (token m) in
@@ -123,6 +133,9 @@ Definition opt_ok (cur : Z) (o : Z * bytes) : bool :=
   match option_value (fst o) (snd o) with Ok v' => beqb v' (snd o) | Raise _ => false end.
 Fixpoint opts_ok (cur : Z) (os : list (Z * bytes)) : bool :=
   match os with [] => true | o :: r => opt_ok cur o && opts_ok (fst o) r end.
+(* the message as it appears on the wire / after decoding: options in option_list() order *)
+Definition canon (m : msg) : msg :=
+  {| code := code m; token := token m; opts := option_list (opts m); payload := payload m |}.
 Definition msg_ok (m : msg) : bool :=
   (0 <=? code m) && (code m <? 256) && (blen (token m) <=? 8) && bytes_ok (token m) &&
   opts_ok 0 (opts m) && bytes_ok (payload m).
